@@ -529,8 +529,9 @@ theorem footer_ipv6 (mem : Mem) (msize pdu : Nat) (tbo : BitVec 32) (htbo : tbo 
   have hS : C.STACK = 1099511627776 := by unfold C.STACK; rfl
   have t6 : (BitVec.signExtend 32 (6#8) == 1#32) = false ∧ (BitVec.signExtend 32 (6#8) == 10#32) = false ∧
       (BitVec.signExtend 32 (6#8) == 0#32) = false ∧ (BitVec.signExtend 32 (6#8) == 7#32) = false ∧
-      (BitVec.signExtend 32 (6#8) == 4#32) = false ∧ (BitVec.signExtend 32 (6#8) == 6#32) = true := by decide
-  obtain ⟨t1, t10, t0, t7, t4, t66⟩ := t6
+      (BitVec.signExtend 32 (6#8) == 4#32) = false ∧ (BitVec.signExtend 32 (6#8) == 6#32) = true ∧
+      (BitVec.signExtend 32 (6#8) == 9#32) = false := by decide
+  obtain ⟨t1, t10, t0, t7, t4, t66, t9⟩ := t6
   by_cases h : pdu + 32 ≤ msize
   · rw [if_pos h]
     have c1 : pdu + 12 + 0 ≤ msize := by omega
@@ -551,7 +552,7 @@ theorem footer_ipv6 (mem : Mem) (msize pdu : Nat) (tbo : BitVec 32) (htbo : tbo 
     have e20 : pdu + 20 = pdu + 12 + 8 := by omega
     have e24 : pdu + 24 = pdu + 12 + 12 := by omega
     simp only [hty, conv _ _ htbo, c1, c2, c3, c4, c5, c6, c7, c8, c9, d1, g28, decide_true, Bool.and_self, if_true,
-      Nat.add_zero, Nat.le_refl, Nat.add_le_add_iff_left, Nat.reduceLeDiff, Nat.reduceAdd, t1, t10, t0, t7, t4, t66,
+      Nat.add_zero, Nat.le_refl, Nat.add_le_add_iff_left, Nat.reduceLeDiff, Nat.reduceAdd, t1, t10, t0, t7, t4, t66, t9,
       Bool.false_eq_true, if_false]
     simp only [d2, Nat.le_add_right, decide_true, Bool.and_self, if_true]
     refine ⟨_, rfl, ?_⟩
@@ -562,7 +563,7 @@ theorem footer_ipv6 (mem : Mem) (msize pdu : Nat) (tbo : BitVec 32) (htbo : tbo 
     show _ = swapAt (swapAt (swapAt (swapAt (swapAt mem (pdu + 12)) (pdu + 16)) (pdu + 20)) (pdu + 24)) (pdu + 28) x
     rw [e16, e20, e24, e28]
   · rw [if_neg h]
-    simp only [hty, conv _ _ htbo, t1, t10, t0, t7, t4, t66, Bool.false_eq_true, if_false, if_true]
+    simp only [hty, conv _ _ htbo, t1, t10, t0, t7, t4, t66, t9, Bool.false_eq_true, if_false, if_true]
     repeat (rw [ite_eq_right_iff]; intro hc; simp only [Bool.and_eq_true, decide_eq_true_eq] at hc)
     exfalso; omega
 
